@@ -251,6 +251,92 @@ func runConcSwap(c *CCase) {
 	c.Mem = m
 }
 
+// Membership calls released together with the signals that open the next hand: the hand is opened from a copy of the table that is
+// swapped in afterwards; a reservation, re-buy or departure accepted at that moment must not be lost with the old copy.
+func runConcOpen(c *CCase) {
+	r := NewRNG(c.Seed)
+	set := mkSetting(fmt.Sprintf("copen-%d", c.Index), "default", "ct", c.Max, 2, 0, 0, 10, 20, 1, 10)
+	d, err := NewDrv(set, 0)
+	if err != nil {
+		c.Note = "create failed"
+		return
+	}
+	np := 2 + r.Intn(2)
+	if np > c.Max-1 {
+		np = c.Max - 1
+	}
+	for i := 0; i < np; i++ {
+		d.te.PlayerReserve(pt.JoinPlayer{PlayerID: pid(i + 1), RedeemChips: int64(500 + r.Intn(500)), Seat: -1})
+	}
+	for i := 0; i < np; i++ {
+		d.JoinAndSettle(pid(i + 1))
+	}
+	d.Quiesce(quiesceLimit)
+	if d.StartAndOpenFirst() != "ok" {
+		c.Note = "first hand did not open"
+		return
+	}
+	// somebody who takes a seat while the first hand runs and does not sit in (no part in the hands)
+	by := 40
+	d.te.PlayerReserve(pt.JoinPlayer{PlayerID: pid(by), RedeemChips: 300, Seat: -1})
+	d.Quiesce(quiesceLimit)
+	pol := &Policy{R: r.Fork(3), FoldPct: 60, AllinPct: 0, RaisePct: 0}
+	for step := 0; step < 200; step++ {
+		if st := d.te.GetTable().State.Status; st == pt.TableStateStatus_TableGameStandby || st == pt.TableStateStatus_TablePausing {
+			break
+		}
+		if _, res := d.Advance(pol); res != "ok" {
+			break
+		}
+	}
+	if d.te.GetTable().State.Status != pt.TableStateStatus_TableGameStandby {
+		c.Note = "no second hand to open: " + string(d.te.GetTable().State.Status)
+		return
+	}
+	d.Quiesce(quiesceLimit)
+	m := &CMem{Pre: d.Abs()}
+	var signals []string
+	for id, p := range pt.VerifOpenGameManager(d.te).GetState().Participants {
+		if !p.IsReady {
+			signals = append(signals, id)
+		}
+	}
+	next := 50
+	for i := 0; i < c.N; i++ {
+		switch r.Intn(4) {
+		case 0:
+			m.Ops = append(m.Ops, TMOp{Kind: "reserve", Join: &TMJoin{ID: by, Chips: int64(1 + r.Intn(200)), Seat: -1}}) // a re-buy
+		default:
+			m.Ops = append(m.Ops, TMOp{Kind: "reserve", Join: &TMJoin{ID: next, Chips: int64(1 + r.Intn(500)), Seat: -1}})
+			next++
+		}
+	}
+	m.Res = make([]string, len(m.Ops))
+	burst(len(m.Ops)+len(signals), func(i int) {
+		if i < len(signals) {
+			d.te.PlayerSettlementFinish(signals[i])
+			return
+		}
+		k := i - len(signals)
+		res, _ := d.applyTM(&m.Ops[k])
+		m.Res[k] = res
+	})
+	d.Quiesce(quiesceLimit)
+	m.Post = d.Abs()
+	for i := range m.Ops {
+		op := &m.Ops[i]
+		op.Drawn = []int{}
+		seat := -1
+		for s, p := range m.Post.SM.Seats {
+			if p != nil && p.ID == op.Join.ID {
+				seat = s
+			}
+		}
+		op.Drawn = append(op.Drawn, seat)
+	}
+	c.Mem = m
+}
+
 func runConcSeats(c *CCase) {
 	r := NewRNG(c.Seed)
 	mgr := sm.NewSeatManager(c.Max, "default")
@@ -431,6 +517,11 @@ func genConc(root *RNG, i int, seed uint64, mode string) CCase {
 		c.Kind = mode
 	}
 	c.N = 2 + r.Intn(5) // small bursts: every order of the operations can be tried by the model
+	if mode == "open" {
+		c.Max = 4 + r.Intn(6)
+		c.N = 2 + r.Intn(3)
+		return c
+	}
 	if mode == "swap" {
 		c.Max = 2 + r.Intn(5)
 		c.N = 3 + r.Intn(4)
@@ -480,6 +571,8 @@ func runConc(opt Opts) error {
 				runConcMembers(&cp)
 			case "swap":
 				runConcSwap(&cp)
+			case "open":
+				runConcOpen(&cp)
 			case "seats":
 				runConcSeats(&cp)
 			default:
@@ -518,7 +611,11 @@ func (c CCase) Coq() string {
 		for i, o := range c.Mem.Ops {
 			ops[i] = o.Coq()
 		}
-		return fmt.Sprintf("CMembers %s [%s] %s %s", c.Mem.Pre.CoqTbl(c.Max), strings.Join(ops, "; "), coqRes(c.Mem.Res), c.Mem.Post.CoqTbl(c.Max))
+		cons := "CMembers"
+		if c.Kind == "open" {
+			cons = "COpenMembers"
+		}
+		return fmt.Sprintf("%s %s [%s] %s %s", cons, c.Mem.Pre.CoqTbl(c.Max), strings.Join(ops, "; "), coqRes(c.Mem.Res), c.Mem.Post.CoqTbl(c.Max))
 	case c.Seats != nil:
 		ops := make([]string, len(c.Seats.Ops))
 		for i, o := range c.Seats.Ops {
